@@ -81,6 +81,9 @@ func writeReplay(prop, tier string, v *Violation) string {
 // replayFile runs the harness natively on the recorded assignment.
 // Returns 0 if the recorded failure reproduces, 1 otherwise.
 func replayFile(path string, print bool) int {
+	if ap, err := filepath.Abs(path); err == nil {
+		path = ap
+	}
 	b, err := os.ReadFile(path)
 	if err != nil {
 		fmt.Fprintln(os.Stderr, err)
